@@ -709,7 +709,10 @@ class Verifier(Calls):
             own = {n.id for n in ast.walk(fn) if isinstance(n, ast.Name) and isinstance(n.ctx, ast.Store)}
             acc['locals'] -= (own - self._outer_assigned)
         else:
-            self.collect_writes(loader.strip_doc(fn.body), st, argmap, False, depth + 1, acc)
+            # names inside the callee resolve in the callee's module
+            st2 = st.fork()
+            st2.frames.append(Frame(m, key, parent=len(st.frames) - 1))
+            self.collect_writes(loader.strip_doc(fn.body), st2, argmap, False, depth + 1, acc)
 
     def add_modifies_entry(self, mexpr, argmap, acc):
         mexpr = mexpr.strip()
